@@ -563,7 +563,7 @@ inline const char* point_name(uint32_t id) {
         N(P_RINGCHAN_SEND_AFTER_PUSH) N(P_RINGCHAN_RECV_BEFORE_IDLE) N(P_SPSC_PUSH) N(P_SPSC_POP)
         N(P_CHAN_SEND_BEFORE_WAIT) N(P_CHAN_RECV_BEFORE_WAIT) N(P_WORKPOOL_AFTER_CREATE) N(P_OOO_COLLECT)
         N(P_OBJCACHE_RELEASE) N(P_OBJCACHEV2_RELEASE) N(P_RANGELOCK_WAIT) N(P_CACHE_EVICT) N(P_CACHE_REFILL)
-        N(P_EPOLL_EVENT)
+        N(P_EPOLL_EVENT) N(P_SWITCH_BEFORE_SAVE)
 #undef N
     }
     return "P_?";
